@@ -170,6 +170,15 @@ def contents(P, F, fn, origin, site=None, _depth=0):
                     out.append(Contribution("opaque", site=s2, how=name))
         return out
     if o[0] == "call":
+        if o[1].rsplit("::", 1)[-1] == "concat" and ("[T]" in o[1] or "slice" in o[1]) and len(o[2]) == 1:
+            # `[a, b].concat()`: the parts one after the other
+            arr = peel(o[2][0])
+            if arr[0] == "agg" and arr[1] in ("array", "vec"):
+                out = []
+                for k, v in arr[2]:
+                    out.extend(contents(P, F, fn, v, site, _depth + 1))
+                return out
+            return [Contribution("opaque", how="concat of ?", site=site)]
         if o[1] in COLLECT and o[2]:
             s2 = o[4] if len(o) > 4 else site
             cs = iter_contribs(P, F, fn, o[2][0], s2)
@@ -182,6 +191,21 @@ def contents(P, F, fn, origin, site=None, _depth=0):
         return [Contribution("all-of", src=strip_adapters(o), expr=("bound", "elem", strip_adapters(o)), site=site, how="call result")]
     if o[0] == "agg" and o[1] in ("array", "vec"):
         return [Contribution("single", expr=v, site=site, how="literal") for k, v in o[2]]
-    if o[0] in ("param", "field", "ok", "some", "upvar", "bound", "cparam", "item"):
+    if o[0] in ("param", "field", "ok", "some", "upvar", "bound", "cparam", "item", "const"):
         return [Contribution("all-of", src=strip_adapters(o), expr=("bound", "elem", strip_adapters(o)), site=site, how="whole collection")]
     return [Contribution("opaque", how="unrecognised %s" % o[0], site=site)]
+
+
+def byte_parts(P, F, fn, origin):
+    """for a byte string / vector assembled from whole pieces (`a.to_vec()` + `extend_from_slice(b)`, `[a, b].concat()`,
+    `Vec::with_capacity(n)` + extends): the origins of the pieces in order, or None when anything else is going on"""
+    cs = contents(P, F, fn, origin)
+    parts = []
+    for c in cs:
+        if c.kind == "all-of" and c.is_identity() and not c.conds and not c.adapters:
+            parts.append(c.src)
+        elif c.kind == "single" and not c.conds:
+            parts.append(("byte", c.expr))
+        else:
+            return None
+    return parts
